@@ -132,7 +132,15 @@ VAttrs(it) ==
        \cup (IF it.twice /\ ~Repeatable(it.a) THEN {"E026"} ELSE {})
 
 ----------------------------------------------------------------------------------------------------
+(* F9 attribute lists: up to three attributes in front of one operation (every one of them legal there); an attribute  *)
+(* that is not repeatable must not occur twice - wherever in the list, whatever stands between the two                 *)
+ListNames == {"allow", "deprecated", "compress", "foreign", "slicedFormat"}
+AttrListItems == [as : SeqsOver(ListNames, 1, 3)]
+VAttrLists(it) == IF \E i, j \in 1..Len(it.as) : i < j /\ it.as[i] = it.as[j] /\ ~Repeatable(it.as[i]) THEN {"E026"} ELSE {}
+
+----------------------------------------------------------------------------------------------------
 Violations(fam, it) == CASE fam = "members" -> VMembers(it) [] fam = "enums" -> VEnums(it) [] fam = "keys" -> VKeys(it)
                          [] fam = "stream" -> VStream(it) [] fam = "names" -> VNames(it) [] fam = "attrs" -> VAttrs(it)
+                         [] fam = "attrlists" -> VAttrLists(it)
 WellFormed(fam, it) == Violations(fam, it) = {}
 ====================================================================================================
